@@ -186,6 +186,26 @@ func c17gen(r *rand.Rand, depth int) *c17node {
 		}
 		n.fields = append(n.fields, f)
 	}
+	if nf > 0 && r.IntN(4) == 0 {
+		// a deliberate collision ACROSS nesting levels: a sibling assigns, through a dotted path, a key that a nested block
+		// also assigns (one of its fields, or its type). Whichever assignment comes later in the source wins.
+		for idx, f := range n.fields {
+			if f.nested == nil {
+				continue
+			}
+			sub := []string{"type"}
+			if len(f.nested.fields) > 0 && r.IntN(3) > 0 {
+				sub = f.nested.fields[r.IntN(len(f.nested.fields))].path
+			}
+			g := c17field{path: append(append(append([]string{}, f.path...), "."), sub...)}
+			g.text = c17ident(r)
+			g.value = g.text
+			pos := r.IntN(len(n.fields) + 1) // before or after the block
+			_ = idx
+			n.fields = append(n.fields[:pos], append([]c17field{g}, n.fields[pos:]...)...)
+			break
+		}
+	}
 	n.trailing = nf > 0 && r.IntN(3) == 0
 	return n
 }
